@@ -173,7 +173,7 @@ const TAILS: &[&[&str]] = &[
     &["list", "rem", "list"],
 ];
 
-fn mk(mac: Mac, kind: Kind, generic: bool, attrs: Reprs, fields: Vec<String>, variants: Vec<Vec<String>>, tail: Vec<String>) -> Decl {
+fn mk(mac: Mac, kind: Kind, generic: bool, attrs: &[&[&str]], fields: Vec<String>, variants: Vec<Vec<String>>, tail: Vec<String>) -> Decl {
     Decl { mac, kind, generic, attrs: vv(attrs), fields, variants, tail }
 }
 
@@ -274,12 +274,12 @@ pub fn grid() -> Vec<(&'static str, Vec<Decl>)> {
 /// Quick-tier sample sizes per stratum.
 pub fn quick_quota(stratum: &str) -> usize {
     match stratum {
-        "align1/struct" => 230,
-        "align1/generic" => 50,
-        "align1/enum" => 70,
-        "zc/struct" => 100,
-        "zc/other" => 40,
-        "unsized" => 50,
+        "align1/struct" => 1500,
+        "align1/generic" => 400,
+        "align1/enum" => 300,
+        "zc/struct" => 600,
+        "zc/other" => 200,
+        "unsized" => 250,
         _ => 0,
     }
 }
